@@ -1593,13 +1593,16 @@ class Data(BaseCartesianData):
         else:
             raise ValueError("Non-unique component labels in new data")
 
-        # If the number of dimensions changes, the pixel and world components
-        # cannot be matched by label and have to be re-created
+        # Pixel and world components are never matched by label (their
+        # identifiers may have been replaced): pixel components are kept, or
+        # re-created if the number of dimensions changes, and world components
+        # follow the coordinates, which are copied below.
+        coordinate_labels = set(cid.label for cid in self.coordinate_components + data.coordinate_components)
+        old_labels -= coordinate_labels
+        new_labels -= coordinate_labels
+
         ndim_changed = data.ndim != self.ndim
         if ndim_changed:
-            coordinate_labels = set(cid.label for cid in self.coordinate_components + data.coordinate_components)
-            old_labels -= coordinate_labels
-            new_labels -= coordinate_labels
             self.coords = None
             for cid in self._pixel_component_ids[:]:
                 self.remove_component(cid)
